@@ -67,6 +67,34 @@ Proof.
     + intros x [<-|Hx] Hkx; [lia|apply IH; assumption].
 Qed.
 
+Definition js (n : Z) : list Z := map Z.of_nat (seq 0 (Z.to_nat n)).
+
+  Lemma map_nth_ext {A} (f : Z -> A) : forall (cs : list A) (a : nat),
+    (forall i c, nth_error cs i = Some c -> c = f (Z.of_nat (a + i))) ->
+    cs = map f (map Z.of_nat (seq a (length cs))).
+  Proof.
+    induction cs as [|c t IH]; intros a H; [reflexivity|]. cbn [length seq map]. f_equal.
+    - rewrite (H 0%nat c eq_refl). f_equal. f_equal. lia.
+    - apply IH. intros i c' Hi. rewrite (H (S i) c' Hi). f_equal. f_equal. lia.
+  Qed.
+
+  Lemma last_nth_error {A} (cs : list A) d : cs <> [] -> nth_error cs (length cs - 1) = Some (last cs d).
+  Proof.
+    induction cs as [|c t IH]; [congruence|]. intros _. destruct t as [|c' t']; [reflexivity|].
+    cbn [length]. replace (S (S (length t')) - 1)%nat with (S (length (c' :: t') - 1)) by (cbn [length]; lia).
+    cbn [nth_error]. rewrite IH by discriminate. reflexivity.
+  Qed.
+
+  Lemma wrap16_succ m : wrap16 (wrap16 m + 1) = wrap16 (m + 1).
+  Proof. unfold wrap16. rewrite Zplus_mod_idemp_l. reflexivity. Qed.
+
+  Lemma In_js j n : In j (js n) <-> 0 <= j < n.
+  Proof.
+    unfold js. rewrite in_map_iff. split.
+    - intros (i & <- & Hi). apply in_seq in Hi. lia.
+    - intros H. exists (Z.to_nat j). split; [lia|]. apply in_seq. lia.
+  Qed.
+
 (* ========================================================================================== *)
 (* Part A: one queue, DATA mode                                                                 *)
 (* ========================================================================================== *)
@@ -81,7 +109,6 @@ Section OneQueue.
   Definition qchunk (k j : Z) : rqchunk :=
     mkRqChunk (wrap32 (T k + j)) s (wrap16 k) 0 0 (mppi k) false (j =? 0) (j =? nfr k - 1) false (frag k j).
 
-  Definition js (n : Z) : list Z := map Z.of_nat (seq 0 (Z.to_nat n)).
   Definition qmsg (k : Z) : list rqchunk := map (qchunk k) (js (nfr k)).
 
   Definition set_ok (m : Z) (P : list (Z * Z)) (x : rqset) : Prop :=
@@ -187,21 +214,7 @@ Section OneQueue.
     pose proof (Hnfr k). unfold wrap32 in E. lia.
   Qed.
 
-  Lemma map_nth_ext {A} (f : Z -> A) : forall (cs : list A) (a : nat),
-    (forall i c, nth_error cs i = Some c -> c = f (Z.of_nat (a + i))) ->
-    cs = map f (map Z.of_nat (seq a (length cs))).
-  Proof.
-    induction cs as [|c t IH]; intros a H; [reflexivity|]. cbn [length seq map]. f_equal.
-    - rewrite (H 0%nat c eq_refl). f_equal. f_equal. lia.
-    - apply IH. intros i c' Hi. rewrite (H (S i) c' Hi). f_equal. f_equal. lia.
-  Qed.
 
-  Lemma last_nth_error {A} (cs : list A) d : cs <> [] -> nth_error cs (length cs - 1) = Some (last cs d).
-  Proof.
-    induction cs as [|c t IH]; [congruence|]. intros _. destruct t as [|c' t']; [reflexivity|].
-    cbn [length]. replace (S (S (length t')) - 1)%nat with (S (length (c' :: t') - 1)) by (cbn [length]; lia).
-    cbn [nth_error]. rewrite IH by discriminate. reflexivity.
-  Qed.
 
   Lemma complete_is_message k cs :
     Forall (fun c => exists j, 0 <= j < nfr k /\ c = qchunk k j) cs -> rqs_complete cs = true -> cs = qmsg k.
@@ -226,15 +239,7 @@ Section OneQueue.
     unfold qmsg, js. rewrite <- Hlen, Nat2Z.id. apply map_nth_ext. intros i c Hc. apply Hidx. exact Hc.
   Qed.
 
-  Lemma wrap16_succ m : wrap16 (wrap16 m + 1) = wrap16 (m + 1).
-  Proof. unfold wrap16. rewrite Zplus_mod_idemp_l. reflexivity. Qed.
 
-  Lemma In_js j n : In j (js n) <-> 0 <= j < n.
-  Proof.
-    unfold js. rewrite in_map_iff. split.
-    - intros (i & <- & Hi). apply in_seq in Hi. lia.
-    - intros H. exists (Z.to_nat j). split; [lia|]. apply in_seq. lia.
-  Qed.
 
   (* a read: either it delivers exactly the next message, or it changes nothing *)
   Lemma QInv_read q m P b :
@@ -318,6 +323,211 @@ Section OneQueue.
 End OneQueue.
 
 (* ========================================================================================== *)
+(* Part A': one queue, I-DATA mode (ordered messages identified by MID, fragments by FSN)         *)
+(* ========================================================================================== *)
+Lemma e2e_not_stale32 m k : m <= k < m + 2147483648 -> sna32LT (wrap32 k) (wrap32 m) = false.
+Proof.
+  intros H. destruct (sna32LT (wrap32 k) (wrap32 m)) eqn:E; [|reflexivity].
+  apply sna32LT_spec in E; unfold in32, wrap32 in *; lia.
+Qed.
+
+Lemma e2e_gt_cursor32 m k : m <= k < m + 2147483648 -> (sna32GT (wrap32 k) (wrap32 m) = false <-> k = m).
+Proof.
+  intros H. split.
+  - intros E. destruct (Z.eq_dec k m) as [|N]; [assumption|exfalso].
+    assert (X : sna32GT (wrap32 k) (wrap32 m) = true) by (apply sna32GT_spec; unfold in32, wrap32; lia).
+    congruence.
+  - intros ->. destruct (sna32GT (wrap32 m) (wrap32 m)) eqn:E; [|reflexivity].
+    apply sna32GT_spec in E; unfold in32, wrap32 in *; lia.
+Qed.
+
+Lemma e2e_key_inj32 m k k' : m <= k < m + 2147483648 -> m <= k' < m + 2147483648 -> wrap32 k = wrap32 k' -> k = k'.
+Proof. unfold wrap32. intros. lia. Qed.
+
+Lemma rq_split_key_none k : forall l, rq_split_key k l = None -> forall x, In x l -> rqs_key x <> k.
+Proof.
+  induction l as [|y t IH]; intros H x Hx; [destruct Hx|]. cbn [rq_split_key] in H.
+  destruct (rqs_key y =? k) eqn:E; [discriminate|].
+  destruct (rq_split_key k t) as [[[b z] a]|] eqn:Et; [discriminate|].
+  destruct Hx as [<-|Hx]; [lia|apply IH; [reflexivity|exact Hx]].
+Qed.
+
+Lemma rqm_push_and_check_ppi x c x' comp :
+  rqm_push_and_check x c = (x', comp, true) ->
+  rqs_key x' = rqs_key x /\ Permutation (rqs_chunks x') (c :: rqs_chunks x) /\
+  rqs_ppi x' = (if rqc_beg c then rqc_ppi c else rqs_ppi x).
+Proof.
+  unfold rqm_push_and_check. destruct (rqm_complete (rqs_chunks x)); [discriminate|].
+  destruct (existsb (fun y => rqc_fsn y =? rqc_fsn c) (rqs_chunks x)); [discriminate|].
+  intros H; inversion H; subst; clear H. cbn [rqs_key rqs_chunks rqs_ppi]. repeat split.
+  rewrite rq_isort_perm. rewrite Permutation_app_comm. reflexivity.
+Qed.
+
+Section OneQueueI.
+  Variable s : Z.
+  Variable tix : Z -> Z -> Z.           (* TSN index of fragment j of message k (any) *)
+  Variable nfr : Z -> Z.
+  Variable frag : Z -> Z -> list Z.
+  Variable mppi : Z -> Z.
+  Hypothesis Hnfr : forall k, 1 <= nfr k < 2147483648.
+
+  Definition ichunk (k j : Z) : rqchunk :=
+    mkRqChunk (wrap32 (tix k j)) s (wrap16 (wrap32 k)) (wrap32 k) j (if j =? 0 then mppi k else 0)
+              false (j =? 0) (j =? nfr k - 1) true (frag k j).
+  Definition imsg (k : Z) : list rqchunk := map (ichunk k) (js (nfr k)).
+
+  Definition iset_ok (m : Z) (P : list (Z * Z)) (x : rqset) : Prop :=
+    exists k, m <= k < m + 2147483648 /\ rqs_key x = wrap32 k /\
+              ((exists c, In c (rqs_chunks x) /\ rqc_beg c = true) -> rqs_ppi x = mppi k) /\
+              rqs_chunks x <> [] /\
+              Forall (fun c => exists j, 0 <= j < nfr k /\ c = ichunk k j /\ In (k, j) P) (rqs_chunks x).
+
+  Definition IInv (q : rq) (m : Z) (P : list (Z * Z)) : Prop :=
+    rq_ordered q = [] /\ rq_unordered q = [] /\ rq_unorderedMID q = [] /\ rq_si q = s /\
+    rq_nextMID q = wrap32 m /\ 0 <= m /\
+    Forall (iset_ok m P) (rq_orderedMID q) /\ NoDup (map rqs_key (rq_orderedMID q)) /\
+    (forall k j, 0 <= k < m -> 0 <= j < nfr k -> In (k, j) P).
+
+  Lemma iset_ok_mono m P P' x : (forall p, In p P -> In p P') -> iset_ok m P x -> iset_ok m P' x.
+  Proof.
+    intros HP (k & H1 & H2 & H3 & H4 & H5). exists k. repeat split; try assumption; try lia.
+    eapply Forall_impl; [|exact H5]. intros c (j & A & B & C). exists j. auto.
+  Qed.
+
+  Lemma IInv_push q m P k j :
+    IInv q m P -> 0 <= k -> 0 <= j < nfr k -> ~ In (k, j) P -> k < m + 2147483648 ->
+    IInv (fst (rq_push q (ichunk k j))) m ((k, j) :: P).
+  Proof.
+    intros (Ho & Hu & Hum & Hs & Hn & Hm & Hsets & Hnd & Hdone) Hk Hj Hnew Hspan.
+    assert (Hkm : m <= k).
+    { destruct (Z_lt_le_dec k m) as [L|]; [|assumption]. exfalso. apply Hnew, Hdone; lia. }
+    assert (Hmono : Forall (iset_ok m ((k, j) :: P)) (rq_orderedMID q)).
+    { eapply Forall_impl; [|exact Hsets]. intros x. apply iset_ok_mono. intros p Hp. right. exact Hp. }
+    assert (Same : IInv (rq_set_inter q) m ((k, j) :: P)).
+    { unfold IInv, rq_set_inter. cbn [rq_ordered rq_unordered rq_unorderedMID rq_si rq_nextMID rq_orderedMID].
+      repeat split; try assumption. intros k0 j0 A B. right. apply Hdone; assumption. }
+    unfold rq_push. change (rqc_idata (ichunk k j)) with true. cbv iota.
+    change (rqc_si (ichunk k j)) with s. change (rq_si (rq_set_inter q)) with (rq_si q). rewrite Hs.
+    replace (negb (s =? s)) with false by lia. change (rqc_unord (ichunk k j)) with false. cbv iota.
+    unfold rq_push_ordered_idata. change (rqc_mid (ichunk k j)) with (wrap32 k).
+    change (rq_nextMID (rq_set_inter q)) with (rq_nextMID q). rewrite Hn.
+    rewrite (e2e_not_stale32 m k) by lia.
+    change (rq_orderedMID (rq_set_inter q)) with (rq_orderedMID q).
+    destruct (rq_split_key (wrap32 k) (rq_orderedMID q)) as [[[b x] a]|] eqn:Esk.
+    - apply rq_split_key_app in Esk. destruct Esk as [El Kx].
+      destruct (rqm_push_and_check x (ichunk k j)) as [[x' comp] acc] eqn:Ep.
+      destruct acc; [|exact Same].
+      apply rqm_push_and_check_ppi in Ep. destruct Ep as (Kx' & Px' & Ppi).
+      cbn [fst]. unfold IInv, rq_set_q, rq_set_inter.
+      cbn [rq_ordered rq_unordered rq_unorderedMID rq_si rq_nextMID rq_orderedMID].
+      rewrite El in Hmono, Hnd. apply Forall_app in Hmono. destruct Hmono as [Mb Ma]. inversion Ma as [|? ? Mx Ma']; subst.
+      repeat split; try assumption.
+      + apply Forall_app. split; [exact Mb|]. constructor; [|exact Ma'].
+        destruct Mx as (k0 & R0 & K0 & P0 & N0 & F0). rewrite Kx in K0.
+        assert (k0 = k) by (symmetry; eapply (e2e_key_inj32 m); [lia|lia|exact K0]). subst k0.
+        exists k. rewrite Kx'. repeat split; try lia; try assumption.
+        * intros (c0 & Hc0 & Bc0). rewrite Ppi. change (rqc_beg (ichunk k j)) with (j =? 0).
+          change (rqc_ppi (ichunk k j)) with (if j =? 0 then mppi k else 0).
+          destruct (j =? 0) eqn:Ej; [reflexivity|]. apply P0.
+          apply (Permutation_in _ Px') in Hc0. destruct Hc0 as [<-|Hc0]; [cbn [ichunk rqc_beg] in Bc0; lia|].
+          exists c0. auto.
+        * intros E. rewrite E in Px'. apply Permutation_nil in Px'. discriminate.
+        * eapply Permutation_Forall; [symmetry; exact Px'|]. constructor.
+          -- exists j. repeat split; try lia. left. reflexivity.
+          -- exact F0.
+      + rewrite map_app in *. cbn [map] in *. rewrite Kx'. exact Hnd.
+      + intros k0 j0 A B. right. apply Hdone; assumption.
+    - change (rq_max (rq_set_inter q)) with (rq_max q).
+      destruct (rq_limit_reached (rq_set_inter q) (Z.of_nat (length (rq_orderedMID q)))); [exact Same|].
+      unfold rqm_push_and_check. cbn [rqs_chunks rqm_complete existsb app]. cbv iota.
+      cbn [fst]. unfold IInv, rq_set_q, rq_set_inter.
+      cbn [rq_ordered rq_unordered rq_unorderedMID rq_si rq_nextMID rq_orderedMID rqs_key].
+      repeat split; try assumption.
+      + eapply Permutation_Forall; [symmetry; apply rq_insert_by_mid_perm|]. constructor; [|exact Hmono].
+        exists k. cbn [rqs_key rqs_ppi rqs_chunks]. repeat split; try lia.
+        * intros (c0 & Hc0 & Bc0). change (rq_isort rq_fsn_lt [ichunk k j]) with [ichunk k j] in Hc0.
+          destruct Hc0 as [<-|[]]. cbn [ichunk rqc_beg rqc_ppi] in *. rewrite Bc0. reflexivity.
+        * change (rq_isort rq_fsn_lt [ichunk k j]) with [ichunk k j]. discriminate.
+        * change (rq_isort rq_fsn_lt [ichunk k j]) with [ichunk k j]. constructor; [|constructor].
+          exists j. repeat split; try lia. left. reflexivity.
+      + eapply Permutation_NoDup; [apply Permutation_map; symmetry; apply rq_insert_by_mid_perm|].
+        cbn [map rqs_key]. constructor; [|exact Hnd].
+        intros Hin. apply in_map_iff in Hin. destruct Hin as (x & Kx & Hx).
+        exact (rq_split_key_none _ _ Esk x Hx Kx).
+      + intros k0 j0 A B. right. apply Hdone; assumption.
+  Qed.
+
+  Lemma ichunk_inj k j j' : ichunk k j = ichunk k j' -> j = j'.
+  Proof. intros E. apply (f_equal rqc_fsn) in E. exact E. Qed.
+
+  Lemma complete_is_message_I k cs :
+    Forall (fun c => exists j, 0 <= j < nfr k /\ c = ichunk k j) cs -> rqm_complete cs = true -> cs = imsg k.
+  Proof.
+    intros HF HC. apply rqm_complete_iff in HC. destruct HC as (c0 & t & E & Hb & He & H0 & Hcon).
+    assert (Hidx : forall i c, nth_error cs i = Some c -> c = ichunk k (Z.of_nat i) /\ Z.of_nat i < nfr k).
+    { induction i as [|i IH]; intros c Hc.
+      - rewrite E in Hc. cbn in Hc. inversion Hc; subst c. rewrite E in HF. inversion HF as [|? ? HH _]. destruct HH as (j & A & B).
+        rewrite B in H0. cbn [ichunk rqc_fsn] in H0. subst j. split; [exact B|lia].
+      - destruct (nth_error cs i) as [x|] eqn:Ex.
+        + destruct (IH x eq_refl) as [Ex' Hi]. assert (Hin : In c cs) by (eapply nth_error_In; exact Hc).
+          eapply Forall_forall in HF; [|exact Hin]. destruct HF as (j & A & B).
+          pose proof (Hcon i x c Ex Hc) as Ht. rewrite Ex', B in Ht. cbn [ichunk rqc_fsn] in Ht.
+          pose proof (Hnfr k). unfold wrap32 in Ht. split; [rewrite B; f_equal; lia|lia].
+        + exfalso. apply nth_error_None in Ex. assert (X : nth_error cs (S i) <> None) by congruence.
+          apply nth_error_Some in X. lia. }
+    assert (Hne : cs <> []) by (rewrite E; discriminate).
+    assert (Hlen : Z.of_nat (length cs) = nfr k).
+    { pose proof (last_nth_error cs c0 Hne) as HL. destruct (Hidx _ _ HL) as [EL Hlt].
+      rewrite EL in He. cbn [ichunk rqc_end] in He.
+      assert (length cs <> 0)%nat by (destruct cs; [congruence|cbn; lia]). lia. }
+    unfold imsg, js. rewrite <- Hlen, Nat2Z.id. apply map_nth_ext. intros i c Hc. apply Hidx. exact Hc.
+  Qed.
+
+  Lemma wrap32_succ m : wrap32 (wrap32 m + 1) = wrap32 (m + 1).
+  Proof. unfold wrap32. rewrite Zplus_mod_idemp_l. reflexivity. Qed.
+
+  Lemma IInv_read q m P b :
+    IInv q m P ->
+    match snd (rq_read q b) with
+    | RdOk n ppi del => del = imsg m /\ ppi = mppi m /\ IInv (fst (rq_read q b)) (m + 1) P
+    | _ => fst (rq_read q b) = q
+    end.
+  Proof.
+    intros (Ho & Hu & Hum & Hs & Hn & Hm & Hsets & Hnd & Hdone).
+    unfold rq_read. rewrite Hum, Hu, Ho. destruct (rq_inter q); [|reflexivity].
+    destruct (rq_orderedMID q) as [|x rest] eqn:EO; [reflexivity|].
+    destruct (rqm_complete (rqs_chunks x)) eqn:Ec; cbn [negb]; [|reflexivity].
+    destruct (sna32GT (rqs_key x) (rq_nextMID q)) eqn:Eg; [reflexivity|].
+    rewrite rq_copy_short_iff. destruct (rq_short b (rqs_chunks x)); [reflexivity|]. cbn [fst snd].
+    inversion Hsets as [|? ? HH Hrest]; subst. destruct HH as (k & Rk & Kk & Pk & Nk & Fk).
+    rewrite Kk, Hn in Eg. apply (e2e_gt_cursor32 m k Rk) in Eg. subst k.
+    assert (Emsg : rqs_chunks x = imsg m).
+    { apply complete_is_message_I; [|exact Ec]. eapply Forall_impl; [|exact Fk]. intros c (j & A & B & _). exists j. auto. }
+    split; [exact Emsg|]. split.
+    { apply Pk. apply rqm_complete_iff in Ec. destruct Ec as (c0 & t & E & Hb & _). exists c0. rewrite E. split; [left; reflexivity|exact Hb]. }
+    unfold IInv, rq_set_next. cbn [rq_ordered rq_unordered rq_unorderedMID rq_si rq_nextMID rq_orderedMID].
+    cbn [map] in Hnd. inversion Hnd as [|? ? Hnotin Hnd']; subst.
+    repeat split; try assumption; try lia.
+    - rewrite Kk, Hn, Z.eqb_refl. apply wrap32_succ.
+    - apply Forall_forall. intros y Hy. eapply Forall_forall in Hrest; [|exact Hy].
+      destruct Hrest as (k & Rk' & Kk' & Rest). exists k. split; [|split; [exact Kk'|exact Rest]].
+      assert (k <> m). { intros ->. apply Hnotin. rewrite Kk, <- Kk'. apply in_map. exact Hy. }
+      lia.
+    - intros k j A B. destruct (Z.eq_dec k m) as [->|]; [|apply Hdone; lia].
+      assert (Hin : In (ichunk m j) (rqs_chunks x)).
+      { rewrite Emsg. unfold imsg. apply in_map. apply In_js. exact B. }
+      eapply Forall_forall in Fk; [|exact Hin]. destruct Fk as (j0 & A0 & B0 & C0).
+      replace j with j0; [exact C0|]. symmetry. eapply ichunk_inj; eassumption.
+  Qed.
+
+  Lemma IInv_new mx : IInv (rq_new s mx) 0 [].
+  Proof.
+    unfold IInv, rq_new. cbn [rq_ordered rq_unordered rq_unorderedMID rq_si rq_nextMID rq_orderedMID map].
+    repeat split; try reflexivity; try lia; try constructor; intros; lia.
+  Qed.
+End OneQueueI.
+
+(* ========================================================================================== *)
 (* Part B: the composed receiver                                                                *)
 (* ========================================================================================== *)
 From Sctp Require Import RPQProofs.
@@ -395,16 +605,33 @@ Proof.
 Qed.
 
 Section Compose.
+  (* generic over the mode: DATA (il = false, span 2^15, QI = QInv) and I-DATA (il = true, span 2^31, QI = IInv) *)
+  Variable il : bool.
+  Variable span : Z.
   Variable U : Z -> option rqchunk.                 (* what the sender put at TSN index i *)
   Variable own : Z -> option (Z * Z * Z).           (* index -> (stream, message number, fragment number) *)
-  Variable T : Z -> Z -> Z.
+  Variable idx : Z -> Z -> Z -> Z.                  (* (stream, message, fragment) -> index *)
   Variable nfr : Z -> Z -> Z.
-  Variable frag : Z -> Z -> Z -> list Z.
   Variable mppi : Z -> Z -> Z.
-  Hypothesis Hnfr : forall s k, 1 <= nfr s k < 2147483648.
-  Definition uchunk (s k j : Z) : rqchunk := qchunk s (T s) (nfr s) (frag s) (mppi s) k j.
+  Variable uchunk : Z -> Z -> Z -> rqchunk.
+  Variable umsg : Z -> Z -> list rqchunk.
+  Variable QI : Z -> rq -> Z -> list (Z * Z) -> Prop.
+  Hypothesis Hnfr : forall s k, 1 <= nfr s k.
+  Hypothesis Hck_idata : forall s k j, rqc_idata (uchunk s k j) = il.
+  Hypothesis Hck_si : forall s k j, rqc_si (uchunk s k j) = s.
+  Hypothesis Hck_tsn : forall s k j, rqc_tsn (uchunk s k j) = wrap32 (idx s k j).
+  Hypothesis HQI_new : forall s mx, QI s (rq_new s mx) 0 [].
+  Hypothesis HQI_push : forall s q m P k j,
+    QI s q m P -> 0 <= k -> 0 <= j < nfr s k -> ~ In (k, j) P -> k < m + span ->
+    QI s (fst (rq_push q (uchunk s k j))) m ((k, j) :: P).
+  Hypothesis HQI_read : forall s q m P b, QI s q m P ->
+    match snd (rq_read q b) with
+    | RdOk n ppi del => del = umsg s m /\ ppi = mppi s m /\ QI s (fst (rq_read q b)) (m + 1) P
+    | _ => fst (rq_read q b) = q
+    end.
+  Hypothesis HQI_done : forall s q m P, QI s q m P -> forall k j, 0 <= k < m -> 0 <= j < nfr s k -> In (k, j) P.
   Hypothesis Hwf : forall i c, U i = Some c ->
-    exists s k j, own i = Some (s, k, j) /\ 0 <= k /\ 0 <= j < nfr s k /\ i = T s k + j /\ c = uchunk s k j.
+    exists s k j, own i = Some (s, k, j) /\ 0 <= k /\ 0 <= j < nfr s k /\ i = idx s k j /\ c = uchunk s k j.
 
   Definition pairs (s : Z) (l : list Z) : list (Z * Z) :=
     flat_map (fun i => match own i with
@@ -412,14 +639,14 @@ Section Compose.
                        | None => []
                        end) l.
 
-  Definition SQInv (s : Z) := QInv s (T s) (nfr s) (frag s) (mppi s).
+  Definition SQInv (s : Z) := QI s.
 
   (* receiver + bitmap ghost + number of messages read per stream *)
   Definition cstate := (e2e_rcv * ghost * (Z -> Z))%type.
 
   Definition CI (k0 : Z) (cs : cstate) : Prop :=
     let '(st, g, m) := cs in
-    J k0 (e2e_pq st, g) /\ e2e_il st = false /\
+    J k0 (e2e_pq st, g) /\ e2e_il st = il /\
     (forall i, In i (gacc g) -> U i <> None) /\
     (forall s, match e2e_get s (e2e_streams st) with
                | Some q => SQInv s q (m s) (pairs s (gacc g))
@@ -464,7 +691,7 @@ Section Compose.
     match e with
     | EvArr i _ =>
         - H31 < i - gK g < H31 /\
-        match own i with Some (s, k, _) => k < m s + 32768 | None => True end
+        match own i with Some (s, k, _) => k < m s + span | None => True end
     | EvRead _ _ => True
     end.
 
@@ -477,7 +704,7 @@ Section Compose.
   Lemma pairs_cons_other s s' i l k j : own i = Some (s', k, j) -> s' <> s -> pairs s (i :: l) = pairs s l.
   Proof. intros H N. unfold pairs. cbn [flat_map]. rewrite H. replace (s' =? s) with false by lia. reflexivity. Qed.
 
-  Lemma pairs_in s l k j : (forall i, In i l -> U i <> None) -> In (k, j) (pairs s l) -> In (T s k + j) l.
+  Lemma pairs_in s l k j : (forall i, In i l -> U i <> None) -> In (k, j) (pairs s l) -> In (idx s k j) l.
   Proof.
     intros HU Hin. unfold pairs in Hin. apply in_flat_map in Hin. destruct Hin as (i & Hi & Hp).
     destruct (U i) as [c|] eqn:Eu; [|exfalso; apply (HU i Hi); exact Eu].
@@ -487,10 +714,7 @@ Section Compose.
   Qed.
 
   Lemma SQInv_new s mx : SQInv s (rq_new s mx) 0 [].
-  Proof.
-    unfold SQInv, QInv, rq_new. cbn [rq_inter rq_unordered rq_si rq_nextSSN rq_ordered map].
-    repeat split; try reflexivity; try lia; try constructor; intros; lia.
-  Qed.
+  Proof. apply HQI_new. Qed.
 
   Lemma cstep_CI k0 cs e : CI k0 cs -> cev_ok cs e -> CI k0 (cstep cs e).
   Proof.
@@ -499,10 +723,10 @@ Section Compose.
       destruct (U i) as [c|] eqn:Eu; [|split; [assumption|split; [assumption|split; assumption]]].
       destruct (Hwf i c Eu) as (s & k & j & Ho & Hk & Hj & Ei & Ec).
       cbn [cev_ok] in Hok. rewrite Ho in Hok. destruct Hok as [Htsn Hssn].
-      assert (Etsn : rqc_tsn c = wrap32 i) by (rewrite Ec, Ei; reflexivity).
-      assert (Esi : rqc_si c = s) by (rewrite Ec; reflexivity).
-      assert (Eid : rqc_idata c = false) by (rewrite Ec; reflexivity).
-      unfold e2e_recv_data. rewrite Eid, Hil. cbn [Bool.eqb negb]. cbv iota.
+      assert (Etsn : rqc_tsn c = wrap32 i) by (rewrite Ec, Ei; apply Hck_tsn).
+      assert (Esi : rqc_si c = s) by (rewrite Ec; apply Hck_si).
+      assert (Eid : rqc_idata c = il) by (rewrite Ec; apply Hck_idata).
+      unfold e2e_recv_data. rewrite Eid, Hil, Bool.eqb_reflx. cbn [negb]. cbv iota.
       rewrite Etsn, Esi.
       destruct (can_push (e2e_pq st) (wrap32 i)) eqn:Ecp.
       + (* acceptable *)
@@ -532,7 +756,7 @@ Section Compose.
           assert (Eg1 : gstep (e2e_pq st, g) (EArr i) = (fst (push (e2e_pq st) (wrap32 i)), mkGhost (gK g) (i :: gacc g) (gskip g))).
           { cbn [gstep]. rewrite Hpush. reflexivity. }
           assert (HQ' : SQInv s (fst (rq_push q c)) (m s) (pairs s (i :: gacc g))).
-          { rewrite (pairs_cons_own s i _ k j Ho), Ec. apply QInv_push; try assumption; try apply Hnfr.
+          { rewrite (pairs_cons_own s i _ k j Ho), Ec. apply HQI_push; try assumption.
             intros Hin. apply Hnew. rewrite Ei. apply (pairs_in s); assumption. }
           assert (HU' : forall i0, In i0 (i :: gacc g) -> U i0 <> None).
           { intros i0 [<-|Hi0]; [congruence|apply HU; exact Hi0]. }
@@ -575,7 +799,7 @@ Section Compose.
     - (* read *)
       unfold e2e_read. pose proof (HS s) as HSs.
       destruct (e2e_get s (e2e_streams st)) as [q|] eqn:Eg; [|split; [assumption|split; [assumption|split; assumption]]].
-      pose proof (QInv_read s (T s) (nfr s) (frag s) (mppi s) (Hnfr s) q (m s) _ b HSs) as HR.
+      pose proof (HQI_read s q (m s) _ b HSs) as HR.
       destruct (rq_read q b) as [q' r] eqn:Er. cbn [fst snd] in HR.
       cbn [CI e2e_set e2e_pq e2e_il e2e_streams].
       split; [exact HJ|]. split; [exact Hil|]. split; [exact HU|].
@@ -590,20 +814,20 @@ Section Compose.
 
   (* the messages of stream s, from number m on *)
   Definition smsgs (s m : Z) (n : nat) : list (Z * list rqchunk * Z) :=
-    map (fun i => (s, qmsg s (T s) (nfr s) (frag s) (mppi s) (m + Z.of_nat i), mppi s (m + Z.of_nat i))) (seq 0 n).
+    map (fun i => (s, umsg s (m + Z.of_nat i), mppi s (m + Z.of_nat i))) (seq 0 n).
 
   Definition outs_of (s : Z) (l : list (Z * list rqchunk * Z)) := filter (fun o => fst (fst o) =? s) l.
 
   Lemma cout_spec k0 cs e s : CI k0 cs ->
     (outs_of s (cout cs e) = [] /\ snd (cstep cs e) s = snd cs s) \/
-    (outs_of s (cout cs e) = [(s, qmsg s (T s) (nfr s) (frag s) (mppi s) (snd cs s), mppi s (snd cs s))] /\
+    (outs_of s (cout cs e) = [(s, umsg s (snd cs s), mppi s (snd cs s))] /\
      snd (cstep cs e) s = snd cs s + 1).
   Proof.
     destruct cs as [[st g] m]. intros (_ & _ & _ & HS). destruct e as [i ok|s1 b]; cbn [cout cstep fst snd].
     - left. split; [reflexivity|]. destruct (U i); [|reflexivity]. destruct (e2e_recv_data st r ok). reflexivity.
     - pose proof (HS s1) as HS1. unfold e2e_read.
       destruct (e2e_get s1 (e2e_streams st)) as [q|] eqn:Eg; [|left; split; reflexivity].
-      pose proof (QInv_read s1 (T s1) (nfr s1) (frag s1) (mppi s1) (Hnfr s1) q (m s1) _ b HS1) as HRd.
+      pose proof (HQI_read s1 q (m s1) _ b HS1) as HRd.
       destruct (rq_read q b) as [q' r] eqn:Er. cbn [fst snd] in *.
       destruct r as [n ppi del| |]; [|left; split; reflexivity|left; split; reflexivity].
       destruct HRd as (-> & -> & _). unfold outs_of. cbn [filter fst].
@@ -650,8 +874,7 @@ Section Compose.
   Proof.
     intros (_ & _ & HU & HS) Hk. pose proof (HS s) as HSs.
     destruct (e2e_get s (e2e_streams st)) as [q|]; [|lia].
-    destruct HSs as (_ & _ & _ & _ & _ & _ & _ & Hdone).
-    assert (Hin : In (k, 0) (pairs s (gacc g))) by (apply Hdone; [lia|specialize (Hnfr s k); lia]).
+    assert (Hin : In (k, 0) (pairs s (gacc g))) by (apply (HQI_done s q (m s) _ HSs); [lia|specialize (Hnfr s k); lia]).
     unfold pairs in Hin. apply in_flat_map in Hin. destruct Hin as (i & Hi & Hp).
     destruct (U i) as [c|] eqn:Eu; [|exfalso; apply (HU i Hi); exact Eu].
     exists i, c. split; [exact Eu|].
@@ -661,11 +884,11 @@ Section Compose.
 End Compose.
 
 (* ---------- from the initial state ---------- *)
-Definition e2e_cinit (peer_tsn buf maxent : Z) : cstate :=
-  (e2e_new peer_tsn buf maxent false, mkGhost (peer_tsn - 1) [] [], fun _ => 0).
+Definition e2e_cinit (il : bool) (peer_tsn buf maxent : Z) : cstate :=
+  (e2e_new peer_tsn buf maxent il, mkGhost (peer_tsn - 1) [] [], fun _ => 0).
 
-Lemma CI_init U own T nfr frag mppi peer_tsn buf maxent : in32 buf ->
-  CI U own T nfr frag mppi (peer_tsn - 1) (e2e_cinit peer_tsn buf maxent).
+Lemma CI_init il U own QI peer_tsn buf maxent : in32 buf ->
+  CI il U own QI (peer_tsn - 1) (e2e_cinit il peer_tsn buf maxent).
 Proof.
   intros Hb. unfold e2e_cinit, CI, e2e_new. cbn [e2e_pq e2e_il e2e_streams gacc e2e_get].
   pose proof (getMaxTSNOffset_range buf Hb) as Hr.
@@ -678,25 +901,134 @@ Qed.
 Definition e2e_bytes (o : Z * list rqchunk * Z) : Z * list Z * Z :=
   (fst (fst o), concat (map rqc_data (snd (fst o))), snd o).
 
-Theorem e2e_ordered_prefix_data U own T nfr frag mppi :
-  (forall s k, 1 <= nfr s k < 2147483648) ->
-  (forall i c, U i = Some c ->
-     exists s k j, own i = Some (s, k, j) /\ 0 <= k /\ 0 <= j < nfr s k /\ i = T s k + j /\
-                   c = uchunk T nfr frag mppi s k j) ->
-  forall peer_tsn buf maxent evs s, in32 buf ->
-  crun_ok U own (e2e_cinit peer_tsn buf maxent) evs ->
-  let outs := outs_of s (couts U (e2e_cinit peer_tsn buf maxent) evs) in
-  map e2e_bytes outs =
-  map (fun i => (s, concat (map (frag s (Z.of_nat i)) (js (nfr s (Z.of_nat i)))), mppi s (Z.of_nat i)))
-      (seq 0 (length outs)).
-Proof.
-  intros Hnfr Hwf peer_tsn buf maxent evs s Hb Hok outs.
-  pose proof (composed_prefix U own T nfr frag mppi Hnfr Hwf (peer_tsn - 1) evs _ s
-                (CI_init U own T nfr frag mppi peer_tsn buf maxent Hb) Hok) as H.
-  fold outs in H. rewrite H at 1. unfold smsgs, e2e_cinit. cbn [snd]. rewrite map_map.
-  apply map_ext. intros i. unfold e2e_bytes. cbn [fst snd]. f_equal. f_equal.
-  unfold qmsg. rewrite map_map. reflexivity.
-Qed.
+(* ---------- DATA mode ---------- *)
+Section DataMode.
+  Variable U : Z -> option rqchunk.
+  Variable own : Z -> option (Z * Z * Z).
+  Variable T : Z -> Z -> Z.
+  Variable nfr : Z -> Z -> Z.
+  Variable frag : Z -> Z -> Z -> list Z.
+  Variable mppi : Z -> Z -> Z.
+  Hypothesis Hnfr : forall s k, 1 <= nfr s k < 2147483648.
+  Definition uchunk (s k j : Z) : rqchunk := qchunk s (T s) (nfr s) (frag s) (mppi s) k j.
+  Hypothesis Hwf : forall i c, U i = Some c ->
+    exists s k j, own i = Some (s, k, j) /\ 0 <= k /\ 0 <= j < nfr s k /\ i = T s k + j /\ c = uchunk s k j.
+
+  Definition dQI (s : Z) := QInv s (T s) (nfr s) (frag s) (mppi s).
+  Definition dmsg (s k : Z) := qmsg s (T s) (nfr s) (frag s) (mppi s) k.
+
+  Lemma d_nfr1 : forall s k, 1 <= nfr s k.  Proof. intros s k. specialize (Hnfr s k). lia. Qed.
+  Lemma d_new : forall s mx, dQI s (rq_new s mx) 0 [].
+  Proof.
+    intros s mx. unfold dQI, QInv, rq_new. cbn [rq_inter rq_unordered rq_si rq_nextSSN rq_ordered map].
+    repeat split; try reflexivity; try lia; try constructor; intros; lia.
+  Qed.
+  Lemma d_push : forall s q m P k j, dQI s q m P -> 0 <= k -> 0 <= j < nfr s k -> ~ In (k, j) P -> k < m + 32768 ->
+    dQI s (fst (rq_push q (uchunk s k j))) m ((k, j) :: P).
+  Proof. intros. apply QInv_push; try assumption. apply Hnfr. Qed.
+  Lemma d_read : forall s q m P b, dQI s q m P ->
+    match snd (rq_read q b) with
+    | RdOk n ppi del => del = dmsg s m /\ ppi = mppi s m /\ dQI s (fst (rq_read q b)) (m + 1) P
+    | _ => fst (rq_read q b) = q
+    end.
+  Proof. intros. apply QInv_read; [apply Hnfr|assumption]. Qed.
+  Lemma d_done : forall s q m P, dQI s q m P -> forall k j, 0 <= k < m -> 0 <= j < nfr s k -> In (k, j) P.
+  Proof. intros s q m P (_ & _ & _ & _ & _ & _ & _ & H). exact H. Qed.
+
+  Theorem e2e_ordered_prefix_data peer_tsn buf maxent evs s : in32 buf ->
+    crun_ok 32768 U own (e2e_cinit false peer_tsn buf maxent) evs ->
+    let outs := outs_of s (couts U (e2e_cinit false peer_tsn buf maxent) evs) in
+    map e2e_bytes outs =
+    map (fun i => (s, concat (map (frag s (Z.of_nat i)) (js (nfr s (Z.of_nat i)))), mppi s (Z.of_nat i)))
+        (seq 0 (length outs)).
+  Proof.
+    intros Hb Hok outs.
+    pose proof (composed_prefix false 32768 U own (fun s k j => T s k + j) nfr mppi uchunk dmsg dQI
+                  d_nfr1 (fun _ _ _ => eq_refl) (fun _ _ _ => eq_refl) (fun _ _ _ => eq_refl)
+                  d_new d_push d_read d_done Hwf (peer_tsn - 1) evs _ s
+                  (CI_init false U own dQI peer_tsn buf maxent Hb) Hok) as H.
+    fold outs in H. rewrite H at 1. unfold smsgs, e2e_cinit. cbn [snd]. rewrite map_map.
+    apply map_ext. intros i. unfold e2e_bytes. cbn [fst snd]. f_equal. f_equal.
+    unfold dmsg, qmsg. rewrite map_map. reflexivity.
+  Qed.
+
+  Lemma d_run_CI peer_tsn buf maxent evs : in32 buf ->
+    crun_ok 32768 U own (e2e_cinit false peer_tsn buf maxent) evs ->
+    CI false U own dQI (peer_tsn - 1) (crun U (e2e_cinit false peer_tsn buf maxent) evs).
+  Proof.
+    intros Hb Hok.
+    exact (crun_CI false 32768 U own (fun s k j => T s k + j) nfr mppi uchunk dmsg dQI
+             d_nfr1 (fun _ _ _ => eq_refl) (fun _ _ _ => eq_refl) (fun _ _ _ => eq_refl)
+             d_new d_push d_read d_done Hwf (peer_tsn - 1) evs _ (CI_init false U own dQI peer_tsn buf maxent Hb) Hok).
+  Qed.
+
+  Lemma d_run_count peer_tsn buf maxent evs s : in32 buf ->
+    crun_ok 32768 U own (e2e_cinit false peer_tsn buf maxent) evs ->
+    snd (crun U (e2e_cinit false peer_tsn buf maxent) evs) s =
+    Z.of_nat (length (outs_of s (couts U (e2e_cinit false peer_tsn buf maxent) evs))).
+  Proof.
+    intros Hb Hok.
+    exact (crun_count false 32768 U own (fun s k j => T s k + j) nfr mppi uchunk dmsg dQI
+             d_nfr1 (fun _ _ _ => eq_refl) (fun _ _ _ => eq_refl) (fun _ _ _ => eq_refl)
+             d_new d_push d_read d_done Hwf (peer_tsn - 1) evs _ s (CI_init false U own dQI peer_tsn buf maxent Hb) Hok).
+  Qed.
+
+  Lemma d_read_exists k0 st g m s k : CI false U own dQI k0 (st, g, m) -> 0 <= k < m s ->
+    exists i c, U i = Some c /\ own i = Some (s, k, 0).
+  Proof.
+    exact (CI_read_exists false 32768 U own (fun s k j => T s k + j) nfr mppi uchunk dmsg dQI
+             d_nfr1 (fun _ _ _ => eq_refl) (fun _ _ _ => eq_refl) (fun _ _ _ => eq_refl)
+             d_new d_push d_read d_done Hwf k0 st g m s k).
+  Qed.
+End DataMode.
+
+(* ---------- I-DATA mode ---------- *)
+Section IDataMode.
+  Variable U : Z -> option rqchunk.
+  Variable own : Z -> option (Z * Z * Z).
+  Variable tix : Z -> Z -> Z -> Z.      (* TSN index of fragment j of message k of stream s: any interleaving *)
+  Variable nfr : Z -> Z -> Z.
+  Variable frag : Z -> Z -> Z -> list Z.
+  Variable mppi : Z -> Z -> Z.
+  Hypothesis Hnfr : forall s k, 1 <= nfr s k < 2147483648.
+  Definition uichunk (s k j : Z) : rqchunk := ichunk s (tix s) (nfr s) (frag s) (mppi s) k j.
+  Hypothesis Hwf : forall i c, U i = Some c ->
+    exists s k j, own i = Some (s, k, j) /\ 0 <= k /\ 0 <= j < nfr s k /\ i = tix s k j /\ c = uichunk s k j.
+
+  Definition iQI (s : Z) := IInv s (tix s) (nfr s) (frag s) (mppi s).
+  Definition imsgs (s k : Z) := imsg s (tix s) (nfr s) (frag s) (mppi s) k.
+
+  Lemma i_nfr1 : forall s k, 1 <= nfr s k.  Proof. intros s k. specialize (Hnfr s k). lia. Qed.
+  Lemma i_push : forall s q m P k j, iQI s q m P -> 0 <= k -> 0 <= j < nfr s k -> ~ In (k, j) P -> k < m + 2147483648 ->
+    iQI s (fst (rq_push q (uichunk s k j))) m ((k, j) :: P).
+  Proof. intros. apply IInv_push; try assumption. apply Hnfr. Qed.
+  Lemma i_read : forall s q m P b, iQI s q m P ->
+    match snd (rq_read q b) with
+    | RdOk n ppi del => del = imsgs s m /\ ppi = mppi s m /\ iQI s (fst (rq_read q b)) (m + 1) P
+    | _ => fst (rq_read q b) = q
+    end.
+  Proof. intros. apply IInv_read; [apply Hnfr|assumption]. Qed.
+  Lemma i_done : forall s q m P, iQI s q m P -> forall k j, 0 <= k < m -> 0 <= j < nfr s k -> In (k, j) P.
+  Proof. intros s q m P (_ & _ & _ & _ & _ & _ & _ & _ & H). exact H. Qed.
+
+  (* I-DATA: messages identified by MID; H_mid: fewer than 2^31 messages ahead of the read cursor *)
+  Theorem e2e_ordered_prefix_idata peer_tsn buf maxent evs s : in32 buf ->
+    crun_ok 2147483648 U own (e2e_cinit true peer_tsn buf maxent) evs ->
+    let outs := outs_of s (couts U (e2e_cinit true peer_tsn buf maxent) evs) in
+    map e2e_bytes outs =
+    map (fun i => (s, concat (map (frag s (Z.of_nat i)) (js (nfr s (Z.of_nat i)))), mppi s (Z.of_nat i)))
+        (seq 0 (length outs)).
+  Proof.
+    intros Hb Hok outs.
+    pose proof (composed_prefix true 2147483648 U own tix nfr mppi uichunk imsgs iQI
+                  i_nfr1 (fun _ _ _ => eq_refl) (fun _ _ _ => eq_refl) (fun _ _ _ => eq_refl)
+                  (fun s mx => IInv_new s (tix s) (nfr s) (frag s) (mppi s) (Hnfr s) mx) i_push i_read i_done Hwf (peer_tsn - 1) evs _ s
+                  (CI_init true U own iQI peer_tsn buf maxent Hb) Hok) as H.
+    fold outs in H. rewrite H at 1. unfold smsgs, e2e_cinit. cbn [snd]. rewrite map_map.
+    apply map_ext. intros i. unfold e2e_bytes. cbn [fst snd]. f_equal. f_equal.
+    unfold imsgs, imsg. rewrite map_map. reflexivity.
+  Qed.
+End IDataMode.
 
 (* ========================================================================================== *)
 (* Part C: the universe generated from a list of writes (DATA mode) is well-formed              *)
@@ -850,24 +1182,23 @@ Section Generator.
 
   (* C01, DATA mode, in terms of the messages written *)
   Theorem e2e_ordered_prefix_written peer_tsn buf maxent evs s :
-    in32 buf -> crun_ok g_U g_own (e2e_cinit peer_tsn buf maxent) evs ->
-    let outs := outs_of s (couts g_U (e2e_cinit peer_tsn buf maxent) evs) in
+    in32 buf -> crun_ok 32768 g_U g_own (e2e_cinit false peer_tsn buf maxent) evs ->
+    let outs := outs_of s (couts g_U (e2e_cinit false peer_tsn buf maxent) evs) in
     map e2e_bytes outs =
     map (fun w => (s, em_data w, em_ppi w)) (firstn (length outs) (e2e_written s ws)).
   Proof.
     intros Hb Hok outs.
     pose proof (e2e_ordered_prefix_data g_U g_own g_T g_nfr g_frag g_ppi g_nfr_range g_wf peer_tsn buf maxent evs s Hb Hok) as H.
     fold outs in H. rewrite H.
-    pose proof (CI_init g_U g_own g_T g_nfr g_frag g_ppi peer_tsn buf maxent Hb) as HC0.
-    pose proof (crun_CI g_U g_own g_T g_nfr g_frag g_ppi g_nfr_range g_wf _ evs _ HC0 Hok) as HCf.
-    pose proof (crun_count g_U g_own g_T g_nfr g_frag g_ppi g_nfr_range g_wf _ evs _ s HC0 Hok) as Hcnt.
-    fold outs in Hcnt. unfold e2e_cinit in Hcnt at 2. cbn [snd] in Hcnt.
+    pose proof (d_run_CI g_U g_own g_T g_nfr g_frag g_ppi g_nfr_range g_wf peer_tsn buf maxent evs Hb Hok) as HCf.
+    pose proof (d_run_count g_U g_own g_T g_nfr g_frag g_ppi g_nfr_range g_wf peer_tsn buf maxent evs s Hb Hok) as Hcnt.
+    fold outs in Hcnt.
     assert (Hex : forall k, (k < length outs)%nat -> exists w, nth_error (e2e_written s ws) k = Some w).
-    { intros k Hk. destruct (crun g_U (e2e_cinit peer_tsn buf maxent) evs) as [[st g] m] eqn:Ec. cbn [snd] in Hcnt.
-      destruct (CI_read_exists g_U g_own g_T g_nfr g_frag g_ppi g_nfr_range g_wf _ st g m s (Z.of_nat k) HCf) as (i & c & _ & Ho); [lia|].
+    { intros k Hk. destruct (crun g_U (e2e_cinit false peer_tsn buf maxent) evs) as [[st g] m] eqn:Ec. cbn [snd] in Hcnt.
+      destruct (d_read_exists g_U g_own g_T g_nfr g_frag g_ppi g_nfr_range g_wf _ st g m s (Z.of_nat k) HCf) as (i & c & _ & Ho); [lia|].
       destruct (g_own_msg _ _ _ _ Ho) as (w & Hw). exists w. unfold g_msg in Hw.
       replace (Z.of_nat k <? 0) with false in Hw by lia. rewrite Nat2Z.id in Hw. exact Hw. }
-    clear H Hcnt HCf HC0. revert Hex. generalize (length outs) as n. intros n Hex.
+    clear H Hcnt HCf. revert Hex. generalize (length outs) as n. intros n Hex.
     assert (G : forall n a, (forall k, (k < a + n)%nat -> exists w, nth_error (e2e_written s ws) k = Some w) ->
                 map (fun i => (s, concat (map (g_frag s (Z.of_nat i)) (js (g_nfr s (Z.of_nat i)))), g_ppi s (Z.of_nat i))) (seq a n) =
                 map (fun w => (s, em_data w, em_ppi w)) (firstn n (skipn a (e2e_written s ws)))).
